@@ -100,14 +100,18 @@ theorem owned_setChildL (d : LDoc) (sel : Sel) (c y : LDoc) (hc : childAtL d sel
         perm_with this
     | arr b cap items =>
       simp only [childAtL] at hc
-      cases hg : items[fastStrToNum k]? with
-      | none => simp [hg] at hc
-      | some v =>
-        simp only [hg, Option.bind_some] at hc
-        have hv := nonUndefL_some v c hc; subst hv
-        have := owned_setIdxPure y c items _ hg
-        simp only [setChildL]
-        perm_with this
+      cases hk : arrayKeyIndex k with
+      | none => simp [hk] at hc
+      | some ki =>
+        simp only [hk, Option.bind_some] at hc
+        cases hg : items[ki]? with
+        | none => simp [hg] at hc
+        | some v =>
+          simp only [hg, Option.bind_some] at hc
+          have hv := nonUndefL_some v c hc; subst hv
+          have := owned_setIdxPure y c items _ hg
+          simp only [setChildL, hk]
+          perm_with this
     | _ => simp [childAtL] at hc
   | idx i =>
     cases d with
